@@ -58,6 +58,7 @@ func connScenario(c ccfg) *mcx.Scenario {
 					return message.Message{Code: codes.Content, Token: message.Token{0x61, byte(i)}, Payload: []byte("data")}
 				}
 				var encode func(m message.Message) []byte
+				var special func(kind string, i int) []byte
 				if c.T == "udp" {
 					cfg := udpclient.DefaultConfig
 					onInactive := func(cc *udpclient.Conn) { closedByMonitor++; _ = cc.Close() }
@@ -75,6 +76,12 @@ func connScenario(c ccfg) *mcx.Scenario {
 						for _, ch := range chunks {
 							_ = w.InjectRaw(ch)
 						}
+					}
+					special = func(kind string, i int) []byte {
+						if kind == "recv-ping" {
+							return udpw.Encode(message.Message{Type: message.Confirmable, Code: codes.Empty, MessageID: w.PeerMID()})
+						}
+						return udpw.Encode(message.Message{Type: message.Acknowledgement, Code: codes.Empty, MessageID: 9000 + int32(i)})
 					}
 					tick = func() { w.CC.CheckExpirations(vrt.Now()) }
 					pingsOnWire = func() []message.Message {
@@ -100,6 +107,12 @@ func connScenario(c ccfg) *mcx.Scenario {
 					w := tcpw.New(tcpw.Opts{QueueSize: 4, LimitTotal: 2, LimitEndpoint: 2, DisableCSM: true, Monitor: cfg.CreateInactivityMonitor})
 					encode = tcpw.Encode
 					inject = func(chunks ...[]byte) { w.InjectChunks(chunks...) }
+					special = func(kind string, i int) []byte {
+						if kind == "recv-ping" {
+							return tcpw.Encode(message.Message{Code: codes.Ping, Token: message.Token{0x71, byte(i)}})
+						}
+						return tcpw.Encode(message.Message{Code: codes.Pong, Token: message.Token{0x72, byte(i)}}) // a pong nobody waits for
+					}
 					tick = func() { w.CC.CheckExpirations(vrt.Now()) }
 					pingsOnWire = func() []message.Message {
 						var ps []message.Message
@@ -121,7 +134,7 @@ func connScenario(c ccfg) *mcx.Scenario {
 				for step := 0; step < c.Depth; step++ {
 					vrt.Quiesce("env: settle")
 					pings = append(pings, pingsOnWire()...)
-					opts := []string{"recv", "tick(P/2)", "tick(P+e)", "tick(2P+e)"}
+					opts := []string{"recv", "tick(P/2)", "tick(P+e)", "tick(2P+e)", "recv-ping", "recv-unmatched-ack"}
 					if c.T == "tcp" {
 						opts = append(opts, "recv+partial", "rest")
 					}
@@ -138,6 +151,16 @@ func connScenario(c ccfg) *mcx.Scenario {
 						}
 						n++
 						inject(encode(msg(n)))
+						vrt.Quiesce("env: message processed")
+						last, fails = vrt.Now(), 0
+					case "recv-ping", "recv-unmatched-ack":
+						// messages the connection answers or drops by itself still are received messages
+						if partial != nil {
+							hist[len(hist)-1] = e + "(skipped: a partial frame is pending)"
+							continue
+						}
+						n++
+						inject(special(e, n))
 						vrt.Quiesce("env: message processed")
 						last, fails = vrt.Now(), 0
 					case "recv+partial":
